@@ -340,6 +340,14 @@ pub fn c12(args: &Args) -> Acc {
                     if refill && !matches!(op, Op::SetOrientation(_)) {
                         recovery.push(Op::FillSolid { rect: Rect { x: 0, y: 0, w: (lw as u32).min(3), h: 1 }, c: 0x3C5A });
                     }
+                    // a quarter of the cases: the application puts the panel to sleep and wakes it
+                    // again before it goes on drawing (whatever a failed call left half-updated in
+                    // the driver must not be replayed to the controller by these calls)
+                    if (k + idx) % 4 == 1 && !matches!(op, Op::Sleep | Op::Wake) {
+                        recovery.push(Op::Sleep);
+                        recovery.push(Op::Wake);
+                        a.count("recoveries_with_a_sleep_wake_cycle", 1);
+                    }
                     recovery.push(Op::Clear { c: 0x1234 });
                     let (lw2, lh2) = s.reffb.lsize();
                     let (lw2, lh2) = match &op {
